@@ -120,6 +120,19 @@ def gen_cases(rng, tier):
         pre = ''.join(done)
         yield {'op': 'read', 'code': code, 'bits': pre + tail, 'pos': len(pre), 'via': rng.choice(['read', 'peek', 'internal', 'readlist'])}
         yield {'op': 'whole', 'code': code, 'bits': tail}
+    # several complete codes followed by a truncated one, read as ONE list - the format spelled as a string, a list of strings or a list of Dtype objects:
+    # ReadError, and the position where it was before the call (not after the codes that could be read)
+    for _ in range(60 if tier == 'quick' else 1200):
+        k = rng.randrange(1, 5)
+        items = []
+        for _ in range(k):
+            code = rng.choice(CODES); n = rng.randrange(0, 300) * rng.choice([1, -1])
+            if code in ('ue', 'uie'): n = abs(n)
+            items.append([code, n])
+        code = rng.choice(CODES); n = rng.randrange(3, 500) * (rng.choice([1, -1]) if code in ('se', 'sie') else 1)
+        w = ref_enc(code, n)
+        yield {'op': 'streamcut', 'items': items, 'last': code, 'tail': w[:len(w) - rng.choice([1, 1, 2, 3])], 'pre': ''.join(rng.choice('01') for _ in range(rng.choice([0, 0, 3, 8]))),
+               'via': rng.choice(['readlist', 'peeklist', 'readlist']), 'spell': rng.choice(['string', 'strings', 'dtypes', 'dtypes', 'tuple_dtypes'])}
     for _ in range(100 if tier == 'quick' else 2500):
         k = rng.randrange(1, 9)
         items = []
@@ -181,6 +194,13 @@ def run_impl(c):
             return [v, s.pos]
         r = attempt(f)
         return r if r[0] == 'ok' else ('err', r[1], s.pos)
+    if op == 'streamcut':
+        whole = c['pre'] + ''.join(ref_enc(code, n) for code, n in c['items']) + c['tail']
+        names = [code for code, _ in c['items']] + [c['last']]
+        fmt = {'string': ', '.join(names), 'strings': names, 'dtypes': [Dtype(x) for x in names], 'tuple_dtypes': tuple(Dtype(x) for x in names)}[c['spell']]
+        s = ConstBitStream(bin=whole); s.pos = len(c['pre'])
+        r = attempt(lambda: (s.readlist if c['via'] == 'readlist' else s.peeklist)(fmt))
+        return (r[0], r[1] if r[0] == 'err' else [int(x) for x in r[1]], s.pos)
     if op == 'stream':
         def f():
             parts = [Bits(bin=c['pre'])] + [Bits(**{code: n}) for code, n in c['items']] + [Bits(bin=c['rest'])]
@@ -238,6 +258,11 @@ def oracle(c, obs):
         else:
             if obs[0] != 'err' or obs[1] != 'ReadError' or obs[2] != c['pos']:
                 return f"{c['via']}('{c['code']}') at {c['pos']} of {c['bits']!r}: truncated code must raise ReadError with pos unchanged, got {obs}"
+        return None
+    if op == 'streamcut':
+        if obs[0] != 'err' or obs[1] != 'ReadError' or obs[2] != len(c['pre']):
+            return (f"{c['via']} of {len(c['items'])} complete codes and a truncated '{c['last']}' (format given as {c['spell']}) from pos {len(c['pre'])}: "
+                    f"must raise ReadError with the position unchanged, got {obs[:2]} and pos {obs[2]}")
         return None
     if op == 'stream':
         bits = c['pre'] + ''.join(ref_enc(code, n) for code, n in c['items']) + c['rest']
